@@ -46,6 +46,15 @@ def scenarios():
         (("sub", 1, pre + [("qalloc", "Q1"), ("init", "Q1"), ("g1", "h", "Q1"), ("g1", "s", "Q1")]), [0]),
         (("sub", 1, pre + [("g1", "s", "Q1"), ("g1", "h", "Q1"), ("meas", "Q1", "M0"), ("ret_reg", "M0")]), [0]),
         (("stop", 1), [0, 0])]))
+    # an allocation refused by the REGISTER limit (qubit limit not reached): the address must be free again afterwards, a later allocation of it
+    # (after a free made room) must give a fresh working qubit, and the qubits at higher addresses stay usable
+    out.append(("register-limit-refusal-then-reuse", [(4, 2)], [
+        (("init", 0, 4), []),
+        (("sub", 0, pre + [("qalloc", "Q1"), ("init", "Q1"), ("qalloc", "Q2"), ("init", "Q2"), ("g1", "x", "Q2"), ("qalloc", "Q0")]), [0, 0]),
+        (("sub", 0, pre + [("g1", "h", "Q1"), ("qfree", "Q1")]), [1]),
+        (("sub", 0, pre + [("qalloc", "Q0"), ("init", "Q0"), ("g1", "x", "Q0"), ("g2", "cnot", "Q0", "Q2"), ("meas", "Q0", "M0"), ("meas", "Q2", "M1"),
+                           ("ret_reg", "M0"), ("ret_reg", "M1")]), [0, 1, 0]),
+        (("stop", 0), [0, 0, 0])]))
     # re-allocation of a freed address, control/target order, two applications one after the other
     out.append(("realloc", [(3, 10)], [
         (("init", 0, 3), []),
@@ -91,7 +100,8 @@ def run(ctx):
                 sessions.append(s)
         nsess = 1500 if t else 130
         for i in range(nsess):
-            sessions.append(G.random_session(QR, env, rng, pb=(i % 4 == 3), bad=0.08 if i % 3 else 0.2))
+            # every fifth session on a node with 1..3 qubits and 1..3 (or 10) registers: allocations refused by the qubit limit AND by the register limit
+            sessions.append(G.random_session(QR, env, rng, pb=(i % 4 == 3), bad=0.08 if i % 3 else 0.2, tight=(i % 5 == 4)))
     logging.disable(logging.NOTSET)
     # ---- coverage ------------------------------------------------------------------------------------------------------------
     for s in sessions:
